@@ -95,7 +95,7 @@ class Decider(object):
         if c.row.afs == E['reg']:
             return True
         if isinstance(c.row.afs, int):
-            return any(b >= 0xC0 for b in self.live.get(id(c), ())) and not self.X.dis_digit_reg_rejected(c.modifs, c.row.rm)
+            return any(b >= 0xC0 for b in self.live.get(id(c), ())) and not self.X.dis_digit_reg_rejected(c.modifs, c.row.rm, c.name, c.opc)
         return True
 
     def envs(self, want_dib):
